@@ -390,7 +390,12 @@ def run_case(case):
                         res["violations"].append(("fix-touches-parity-excluded-by-its-filter", "%s: %s %r (%s -> %s)" %
                                                   (label, what, p, x[:2] if x else None, y[:2] if y else None), rep))
                         break
-            if cmd == "fix":
+            if cmd == "fix" and b"Stopping at block" in r.err and r.rc != 0:
+                # fix gave up with a fatal message in the middle of the array (e.g. the path of a recorded file is now a
+                # directory): an announced incomplete run; what it had begun (a marker renamed back, a file created) carries
+                # no report - counted, not judged; the rules about content, parity classes and system calls still apply
+                res["counters"]["fix_runs_stopped_by_a_fatal_error"] = res["counters"].get("fix_runs_stopped_by_a_fatal_error", 0) + 1
+            elif cmd == "fix":
                 named = fixed_paths(r)
                 # inodes of the named files after the run: another name of the same inode (hard link) changes with it
                 named_ino = set()
@@ -422,7 +427,7 @@ def run_case(case):
                     # diagnosis of one recorded mechanism: 'p.unrecoverable' left by an earlier fix is renamed back to 'p' (same
                     # bytes, size, time) by a fix that is restricted (-S/-B/-e) to blocks other than the bad one, and nothing is said
                     why = ""
-                    restricted = any(o in args for o in ("-S", "-B", "-e"))
+                    restricted = any(o in args for o in ("-S", "-B", "-e", "-m"))
                     if restricted and what == "created" and y[0] == "file":
                         xu = before[k].get(p + b".unrecoverable")
                         if xu is not None and (p + b".unrecoverable") not in after[k] and (xu[1], xu[2], xu[4]) == (y[1], y[2], y[4]):
